@@ -170,6 +170,13 @@ theorem zernike_basis_independent_instance_2d :
     blockOf 4 3 ex2Basis = !![1, 0, 1; 0, -1, 1; -1/2, 0, -1/2; 0, 0, -1] ∧ IsUnit ((blockOf 4 3 ex2Basis)ᵀ * blockOf 4 3 ex2Basis).det :=
   ⟨ex2Basis_entries, ex2Basis_independent⟩
 
+/-- … and by the basis of the DEFAULT call on a PARTIAL mask: modes [1, 2, 3] with `normalize = true` (Noll's constants through the real square
+root: √2·√(1+1) = 2 for the tilts), a 2 × 2 array whose last sample is outside the mask: the model's basis matrix is
+`[[1,2,0],[1,0,−2],[1,−1,0],[0,0,0]]` (the masked-out sample is a zero row) and `det(BᵀB) = 36` -/
+theorem zernike_basis_independent_instance_normalised :
+    blockOf 4 3 ex3Basis = !![1, 2, 0; 1, 0, -2; 1, -1, 0; 0, 0, 0] ∧ IsUnit ((blockOf 4 3 ex3Basis)ᵀ * blockOf 4 3 ex3Basis).det :=
+  ⟨ex3Basis_entries, ex3Basis_independent⟩
+
 /-- **the two contractions of the code are the REGENERATED `Gen.fitContract` / `Gen.removeContract`** (translated from the einsum subscript
 strings `'ij,i->j'` and `'ijk,i->jk'`): each sums its first index against the vector; the executable model's `B·c` IS the generated
 contraction of `zernike_remove`. Changing a subscript string changes these definitions (or their argument order) and breaks this theorem and
